@@ -343,7 +343,7 @@ var c15Kinds = []weighted{{"honest", 30}, {"subset", 3}, {"missing", 3}, {"dupli
 
 func TestC15Rapid(t *testing.T) {
 	rec := evid.For("C15")
-	runRapid(t, 700, 6000, func(rt *rapid.T) {
+	runRapid(t, 2000, 25000, func(rt *rapid.T) {
 		w := newC15World(rt)
 		if err := w.refresh(rt, rapid.IntRange(0, 9).Draw(rt, "firstRefreshValid") < 9); err != nil {
 			rt.Fatalf("C15 violated: %v\nhistory:\n%s", err, strings.Join(w.log, "\n"))
